@@ -1,0 +1,99 @@
+//go:build verif
+
+package redisemu
+
+// C14: the sixteen databases, SELECT, FLUSHDB/FLUSHALL.
+
+//@ func newDataStore
+//@ trusted allocation of an empty database
+//@ modifies alloc
+//@ ensures result != nil && result.data != nil && result.waitingClients != nil && result.data.count == 0
+
+//@ func dataStore.newDataStoreCommand
+//@ trusted allocates a command object with the next command id for this store
+//@ requires ds != nil
+//@ modifies alloc dataStore.commandNumber
+//@ ensures result != nil && result.ds == ds && result.id != 0 && result.id != ds.multiLock
+
+//@ func dataStore.load
+//@ trusted runs at start-up (newDataStoreSet) before the store is shared; replaces ds.data with the decoded snapshot
+//@ requires ds != nil
+//@ modifies heap
+
+//@ pred dssOK(dss *dataStoreSet) = dss != nil && dss.dbs != nil
+// table invariant: only indexes 0..15 are present and every entry is a database (established by createDbUnlocked, the only writer)
+//@ pred dbsWF(dss *dataStoreSet, j int) = haskey(dss.dbs, j) ==> (0 <= j && j <= 15 && dss.dbs[j] != nil)
+
+//@ func dataStoreSet.createDbUnlocked
+//@ prop C14
+//@ requires dssOK(dss)
+//@ requires wf: forall j int :: dbsWF(dss, j)
+//@ ensures [C14] wf: forall j int :: dbsWF(dss, j)
+//@ modifies map<int,*dataStore> alloc
+//@ ensures [C14] range: valid == (0 <= index && index <= 15)
+//@ ensures [C14] entry: valid ==> ds != nil && dss.dbs[index] == ds
+//@ ensures [C14] keep: valid && old(dss.dbs[index]) != nil ==> ds == old(dss.dbs[index])
+//@ ensures [C14] invalid: !valid ==> ds == nil
+//@ ensures [C14] others: forall j int :: j != index ==> dss.dbs[j] == old(dss.dbs[j])
+
+//@ func dataStoreSet.getDb
+//@ prop C14
+//@ requires dssOK(dss)
+//@ requires wf: forall j int :: dbsWF(dss, j)
+//@ ensures [C14] wf: forall j int :: dbsWF(dss, j)
+//@ use dataStoreSet.createDbUnlocked.wf
+//@ modifies map<int,*dataStore> alloc
+//@ ensures [C14] range: valid && create ==> 0 <= index && index <= 15
+//@ ensures [C14] entry: valid ==> ds != nil && dss.dbs[index] == ds
+//@ ensures [C14] keep: old(dss.dbs[index]) != nil ==> valid && ds == old(dss.dbs[index])
+//@ ensures [C14] others: forall j int :: j != index ==> dss.dbs[j] == old(dss.dbs[j])
+//@ use dataStoreSet.createDbUnlocked.others
+
+//@ func clientState.selectDb
+//@ prop C14
+//@ requires cs != nil && dssOK(cs.dss)
+//@ requires wf: forall j int :: dbsWF(cs.dss, j)
+//@ modifies clientState.selectedDb clientState.ds map<int,*dataStore> alloc
+//@ ensures [C14] reject: !valid ==> cs.selectedDb == old(cs.selectedDb) && cs.ds == old(cs.ds)
+//@ ensures [C14] select: valid ==> cs.selectedDb == index && cs.ds != nil && cs.ds == cs.dss.dbs[index]
+//@ ensures [C14] prior: priorSelection == old(cs.selectedDb)
+//@ ensures [C14] samedb: valid && old(cs.dss.dbs[index]) != nil ==> cs.ds == old(cs.dss.dbs[index])
+
+// FLUSHDB: the caller's database object is emptied in place (every connection
+// that selected it keeps the same object and sees it empty)
+//@ func dataStoreCommand.flush
+//@ prop C14 C08 C16 C19
+//@ guards on
+//@ safetyprop C13
+//@ requires dscOK(dsc)
+//@ requires [C08,C16] unlocked: !held && lockMode(dsc)
+//@ modifies dataStore.data redisDict.dirty redisDict.keyspace redisDict.owner redisDict.scratch alloc ghost.held
+// the fresh table becomes the keyspace of this store
+//@ ghostafter "dsc.ds.data = newRedisDict()" : dsc.ds.data.keyspace = true
+//@ ghostafter "dsc.ds.data = newRedisDict()" : dsc.ds.data.owner = dsc.ds
+//@ ghostafter "dsc.ds.data = newRedisDict()" : dsc.ds.data.scratch = false
+//@ ensures [C14] empty: dsc.ds.data != nil && dsc.ds.data.count == 0
+//@ ensures [C19] dirty: dsc.ds.data.dirty
+//@ ensures released: !held
+
+//@ func dataStoreSet.flushStore
+//@ prop C14
+//@ requires r1: dss != nil && ds != nil
+//@ requires r2: ds.data != nil && ds.waitingClients != nil
+//@ requires r3: !held
+//@ requires caller != nil ==> (dscOK(caller) && lockMode(caller))
+//@ requires ds.data.keyspace && ds.data.owner == ds && !ds.data.scratch
+//@ modifies dataStore.data dataStore.commandNumber redisDict.dirty redisDict.keyspace redisDict.owner redisDict.scratch alloc ghost.held
+//@ ensures [C14] empty: ds.data != nil && ds.data.count == 0
+//@ ensures !held
+
+//@ func dataStoreSet.flushDb
+//@ prop C14
+//@ requires dssOK(dss) && !held
+//@ requires wf: forall j int :: dbsWF(dss, j)
+//@ requires caller != nil ==> (dscOK(caller) && lockMode(caller))
+//@ requires free wf: dss.dbs[index] != nil ==> (dss.dbs[index].data != nil && dss.dbs[index].waitingClients != nil && dss.dbs[index].data.keyspace && dss.dbs[index].data.owner == dss.dbs[index] && !dss.dbs[index].data.scratch)
+//@ modifies dataStore.data dataStore.commandNumber redisDict.dirty redisDict.keyspace redisDict.owner redisDict.scratch alloc ghost.held
+//@ ensures [C14] inplace: dss.dbs[index] == old(dss.dbs[index])
+//@ ensures [C14] empty: old(dss.dbs[index]) != nil ==> old(dss.dbs[index]).data.count == 0
+//@ ensures [C14] others: forall j int :: dss.dbs[j] == old(dss.dbs[j])
